@@ -48,8 +48,8 @@ RULE = ("exhaustive: every text over {a,B,space,\\n,(,)} up to the tier's length
         "wide chars) with random operator x motion x counts incl. motions that are oracle-only (ge gE g_ | % { } ap ; "
         ", gq ~); a case is non-trivial when some operator changes text, cursor or a register")
 EXHAUSTIVE = True
-EXHAUSTIVE_SCOPE = {"quick": "alphabet {a,B,space,\\n,(,)}: len<=1 full product operators x motions x counts; len 2 all motions x d, 12 rotating motions per other operator; len 3 all states, rotating subsets; raw TextObjects over {a,space,\\n} len<=4, all in-range offsets x 3 types",
-                    "thorough": "alphabet {a,B,space,\\n,(,)}: len<=2 full product operators x motions x counts, all cursors; len 3 all motions x d, 40 rotating motions per other operator; len 4 all states, rotating subsets (40 motions x d, 6 per other operator); raw TextObjects len<=5"}
+EXHAUSTIVE_SCOPE = {"quick": "alphabet {a,B,space,\\n,(,)}: len<=1 full product operators x motions x counts; len 2 all motions x d, 10 rotating motions per other operator; len 3 all states, rotating subsets (22 motions x d, 2 per other operator); raw TextObjects over {a,space,\\n} len<=4, all in-range offsets x 3 types",
+                    "thorough": "alphabet {a,B,space,\\n,(,)}: len<=2 full product operators x motions x counts, all cursors; len 3 all motions x d, 24 rotating motions per other operator; len 4 all states, rotating subsets (24 motions x d, 4 per other operator); raw TextObjects len<=5"}
 TRUSTED = ["harness/c08.py compares text, cursor, clipboard, named registers and insert-mode after every operator",
            "Ptk/Model/C08.lean is a hand translation of vi.py TextObject/operators and the Document queries they use"]
 ASSUMPTIONS = ["CPython str slicing semantics; `re` on the word patterns == maximal class runs (differentially checked)",
@@ -281,8 +281,8 @@ def raw_tos(n, cur):
 
 
 # per tier: text length -> (number of `d` motion instances, instances per other operator); None = all
-PLAN = {"quick": {0: (None, None), 1: (None, None), 2: (None, 12), 3: (28, 3)},
-        "thorough": {0: (None, None), 1: (None, None), 2: (None, None), 3: (None, 40), 4: (40, 6)}}
+PLAN = {"quick": {0: (None, None), 1: (None, None), 2: (None, 10), 3: (22, 2)},
+        "thorough": {0: (None, None), 1: (None, None), 2: (None, None), 3: (None, 24), 4: (24, 4)}}
 
 
 def cases(tier, rng):
@@ -304,7 +304,7 @@ def cases(tier, rng):
             text = "".join(tup)
             for cur in range(n + 1):
                 yield {"k": "raw", "text": text, "cur": cur, "tos": raw_tos(n, cur)}
-    nrand = 1200 if quick else 40000
+    nrand = 1000 if quick else 30000
     for _ in range(nrand):
         text = rand_text(rng)
         cur = rng.choice([0, len(text), rng.randrange(0, len(text) + 1), rng.randrange(0, len(text) + 1)])
@@ -732,9 +732,47 @@ def frame_problem(name, text, nt, a, b, lw, count):
     return None
 
 
+def oracle_raw(case):
+    """TextObject called directly: the documented contract of operator_range ('a (start, end)
+    tuple with start <= end'), and cut() removes exactly what it returns"""
+    v = []
+    ed = get_editor()
+    text, cur = case["text"], case["cur"]
+    for s, e, ty in case["tos"]:
+        ed.buffer.reset(Document(text, cur))
+        to = TextObject(s, e, _TYPES[ty])
+        a, b = to.operator_range(ed.buffer.document)
+        if a > b:
+            v.append({"signature": "TextObject.operator_range | start > end",
+                      "msg": f"text={text!r} cur={cur} TextObject({s},{e},{_TYPES[ty].name}).operator_range -> ({a},{b})"})
+        if not (0 <= cur + a and cur + b <= len(text) + 1):
+            v.append({"signature": "TextObject.operator_range | outside the text",
+                      "msg": f"text={text!r} cur={cur} TextObject({s},{e},{_TYPES[ty].name}).operator_range -> ({a},{b})"})
+        try:
+            nd, cd = to.cut(ed.buffer)
+        except AssertionError as ex:
+            v.append({"signature": "TextObject.cut | AssertionError",
+                      "msg": f"text={text!r} cur={cur} TextObject({s},{e},{_TYPES[ty].name}).cut raised {ex}"})
+            continue
+        k = len(text) - len(nd.text)
+        p = nd.cursor_position
+        removed = text[p:p + k]
+        ok = k >= 0 and text[:p] + text[p + k:] == nd.text and (
+            cd.text == removed or (ty == 2 and removed.endswith("\n") and cd.text == removed[:-1]))
+        if not ok:
+            v.append({"signature": "TextObject.cut | clipboard != removed text",
+                      "msg": f"text={text!r} cur={cur} TextObject({s},{e},{_TYPES[ty].name}).cut -> {nd.text!r},{p} clip={cd.text!r}"})
+    seen, out = set(), []
+    for x in v:
+        if x["signature"] not in seen:
+            seen.add(x["signature"])
+            out.append(x)
+    return out
+
+
 def oracle(case):
     if case["k"] != "e2e":
-        return []
+        return oracle_raw(case)
     res = run_case(case)
     dcache = {}
     v = []
